@@ -342,6 +342,8 @@ func (v *RPCView) String() string { return v.C.Name }
 func (v *RPCView) GetBlockHeight() (uint64, error) {
 	if v.Life != nil {
 		v.Life.Op(false)
+	} else if YieldHook != nil {
+		YieldHook("rpc")
 	}
 	if v.C.w.ShouldFail(v.Node, v.C.Name+".getblockcount") {
 		return 0, errors.New("rpc: getblockcount failed (injected)")
@@ -352,6 +354,8 @@ func (v *RPCView) GetBlockHeight() (uint64, error) {
 func (v *RPCView) GetBlockHash(height uint32) (string, error) {
 	if v.Life != nil {
 		v.Life.Op(false)
+	} else if YieldHook != nil {
+		YieldHook("rpc")
 	}
 	if v.C.w.ShouldFail(v.Node, v.C.Name+".getblockhash") {
 		return "", errors.New("rpc: getblockhash failed (injected)")
@@ -368,6 +372,8 @@ func (v *RPCView) GetBlockHash(height uint32) (string, error) {
 func (v *RPCView) GetTxOut(txid string, vout uint32) (*txwatcher.TxOutResp, error) {
 	if v.Life != nil {
 		v.Life.Op(false)
+	} else if YieldHook != nil {
+		YieldHook("rpc")
 	}
 	if v.C.w.ShouldFail(v.Node, v.C.Name+".gettxout") {
 		return nil, errors.New("rpc: gettxout failed (injected)")
@@ -397,6 +403,8 @@ func (v *RPCView) GetTxOut(txid string, vout uint32) (*txwatcher.TxOutResp, erro
 func (v *RPCView) GetRawtransactionWithBlockHash(txid, blockHash string) (string, error) {
 	if v.Life != nil {
 		v.Life.Op(false)
+	} else if YieldHook != nil {
+		YieldHook("rpc")
 	}
 	if v.C.w.ShouldFail(v.Node, v.C.Name+".getrawtransaction") {
 		return "", errors.New("rpc: getrawtransaction failed (injected)")
